@@ -85,8 +85,18 @@ def oracle(case):
             last_read = Fraction(got)
             return True
 
+        other = SimulatedClock()      # a second instance, poked in between: no influence allowed
         for i, op in enumerate(case['ops']):
             k = op[0]
+            j = i % 5
+            if j == 0:
+                other.start()
+            elif j == 1:
+                other.speed = 3
+            elif j == 2:
+                other.time = other.time + 1
+            elif j == 3:
+                other.stop()
             if k == 'start':
                 clock.start()
                 if not m.running:
